@@ -247,9 +247,40 @@ pub fn independence<T: Type>(out: &mut Out, rng: &mut Sm, inst: &Inst<T>, m1: &T
     let ctx = rng.bytes(3);
     let nonce: [u8; 16] = rng.bytes(16).try_into().unwrap();
     let rs = if inst.typ.joint_rand_len() > 0 { 2 } else { 1 } * inst.na as usize * 32;
-    let random = rng.bytes(rs);
-    let (Some(a), Some(b)) = (shard(out, inst, &ctx, m1, &nonce, &random), shard(out, inst, &ctx, m2, &nonce, &random)) else { return };
-    let case = || format!("independence {} na={}", inst.spec, inst.na);
+    // structured randomness is randomness too: all zeros, all ones, one zero seed block, equal blocks
+    let patterns = structured_randomness(rng, rs, 32);
+    for random in patterns {
+        independence_with(out, inst, m1, m2, &ctx, &nonce, &random);
+    }
+}
+
+/// random bytes plus the degenerate patterns a broken or adversarial random source produces
+pub fn structured_randomness(rng: &mut Sm, len: usize, block: usize) -> Vec<Vec<u8>> {
+    let mut v = vec![rng.bytes(len), vec![0u8; len], vec![0xffu8; len]];
+    // exactly one all-zero block, at every block position in turn (chosen at random here)
+    let nblocks = len / block;
+    let mut z = rng.bytes(len);
+    let k = rng.below(nblocks as u64) as usize;
+    for b in z[k * block..(k + 1) * block].iter_mut() {
+        *b = 0;
+    }
+    v.push(z);
+    // all blocks equal
+    let one = rng.bytes(block);
+    v.push((0..len).map(|i| one[i % block]).collect());
+    // the first two blocks equal, the rest random
+    if nblocks >= 2 {
+        let mut e = rng.bytes(len);
+        let (a, b) = e.split_at_mut(block);
+        b[..block].copy_from_slice(a);
+        v.push(e);
+    }
+    v
+}
+
+fn independence_with<T: Type>(out: &mut Out, inst: &Inst<T>, m1: &T::Measurement, m2: &T::Measurement, ctx: &[u8], nonce: &[u8; 16], random: &[u8]) {
+    let (Some(a), Some(b)) = (shard(out, inst, ctx, m1, nonce, random), shard(out, inst, ctx, m2, nonce, random)) else { return };
+    let case = || format!("independence {} na={} randomness={}", inst.spec, inst.na, hex(&random[..random.len().min(48)]));
     for k in 1..inst.na as usize {
         out.oracle(a.inputs[k] == b.inputs[k], case, || format!("helper {} input share depends on the measurement", k));
     }
@@ -312,6 +343,18 @@ pub fn binding<T: Type>(out: &mut Out, rng: &mut Sm, inst: &Inst<T>, m: &T::Meas
         v[1].id = 2;
         v[2].id = 1;
         cases.push(("swap-helper-ids".into(), v, rep.inputs.clone(), Some(true)));
+    }
+    // identifiers outside the instance, including ones that equal a valid identifier modulo 256
+    for off in [256usize, 512, 1 << 32] {
+        for who in 0..=na {
+            let mut v = honest_views(inst.na, &ctx, nonce, key);
+            for (k, view) in v.iter_mut().enumerate() {
+                if who == na || who == k {
+                    view.id = k + off;
+                }
+            }
+            cases.push((format!("id+{}/{}", off, if who == na { "all".to_string() } else { format!("agg{}", who) }), v, rep.inputs.clone(), Some(true)));
+        }
     }
     for (label, views, inputs, expect_fail) in cases {
         let r = verify(out, inst, &views, &rep.public, &inputs, &no_vs, &no_msg);
